@@ -127,4 +127,14 @@ theorem drain (n : Nat) : ∀ (s : St α), s.lane.eventQ.length + s.lane.syncQ.l
         | nil => simp [hs, he]
     simpa [run, List.replicate_succ] using ih (step s .write) hstep
 
+theorem writes_keep_pushed (n : Nat) : ∀ (s : St α), (run s (List.replicate n .write)).pushed = s.pushed := by
+  induction n with
+  | zero => intro s; rfl
+  | succ n ih =>
+    intro s
+    have h1 : (step s .write).pushed = s.pushed := rfl
+    have h2 := ih (step s .write)
+    rw [h1] at h2
+    simpa [run, List.replicate_succ] using h2
+
 end SwimVerif.Sup
